@@ -30,8 +30,9 @@ type Opts struct {
 }
 
 type dumper struct {
-	b strings.Builder
-	o Opts
+	b       strings.Builder
+	o       Opts
+	listing bool // the leafref machines of the node being dumped are listed
 }
 
 func (d *dumper) line(depth int, format string, args ...any) {
@@ -121,6 +122,9 @@ func (d *dumper) typ(depth int, t schema.Type) {
 		expr := ""
 		if v.Mach() != nil {
 			expr = v.Mach().GetExpr()
+		}
+		if d.listing && v.Mach() != nil {
+			expr += " => " + v.Mach().PrintMachine()
 		}
 		d.line(depth, "type leafref %s path=%q", head, expr)
 	case schema.InstanceId:
@@ -301,6 +305,7 @@ func (d *dumper) node(depth int, path string, n schema.Node) {
 	}
 	switch n.(type) {
 	case schema.Leaf, schema.LeafList:
+		d.listing = d.o.XPathListing && !nsMasked
 		d.typ(depth+1, n.Type())
 	}
 	switch n.(type) {
